@@ -24,7 +24,7 @@ def profiles(nmax, dmax, nmin=1):
             yield ds
 
 
-def build(macro, depths, flavour=None, handler=None, lets=(), rich=False, readers=(), hpos=None, wrap=False, init_ev=False, gated=None, failop=None, hexpr_ev=False, err_after=False, capstep=False, err_defer_cap=False, init_form=None, cap0=False, estart=None, errcap=False, init_block=False):
+def build(macro, depths, flavour=None, handler=None, lets=(), rich=False, readers=(), hpos=None, wrap=False, init_ev=False, gated=None, failop=None, hexpr_ev=False, err_after=False, capstep=False, err_defer_cap=False, init_form=None, cap0=False, estart=None, errcap=False, init_block=False, recover=False):
     """lets: iterable of (branch, is_mut); readers: iterable of (reader_branch, step>=1) where the capture of
     that branch-step snapshots every visible name; rich: every step >= 1 carries a capture, an error-side
     callback and a non-closure operand (C06); failop (Option flavour, sync): how a step fails — None (`=>` and_then) | "filter"
@@ -144,14 +144,18 @@ def build(macro, depths, flavour=None, handler=None, lets=(), rich=False, reader
                     items.append(Op("!>", [B("ev0(\"c.%d.%d.2\"); |e: i32| e" % (k, b))]))
             elif failop:
                 fs = slot(b, k)
+                if recover:
+                    # the step STARTS with a deferred `<|` that would revive a failed branch — it never gets the chance: a failure of
+                    # the previous step has aborted the macro by then
+                    items.append(Op("<|", [O("lg(\"%d.%d.o\", Some(7000))" % (b, k))], deferred=True))
                 if failop == "filter":
-                    items.append(Op("?>", [O("|v: &i32| { ev(\"%d.%d.f\", v); act(%d) == 0 }" % (b, k, fs))], deferred=True))
+                    items.append(Op("?>", [O("|v: &i32| { ev(\"%d.%d.f\", v); act(%d) == 0 }" % (b, k, fs))], deferred=not recover))
                     items.append(Op("|>", [O("|v: i32| v + 1")]))
                 elif failop == "zip":
-                    items.append(Op(">^>", [B("ev0(\"c.%d.%d.z\"); if act(%d) == 0 { Some(1) } else { None }" % (k, b, fs))], deferred=True))
+                    items.append(Op(">^>", [B("ev0(\"c.%d.%d.z\"); if act(%d) == 0 { Some(1) } else { None }" % (k, b, fs))], deferred=not recover))
                     items.append(Op("|>", [O("|t: (i32, i32)| t.0 + t.1")]))
                 else:
-                    items.append(Op("|>", [O("|v: i32| { ev(\"%d.%d.f\", &v); if act(%d) == 0 { Some(v + 1) } else { None } }" % (b, k, fs))], deferred=True))
+                    items.append(Op("|>", [O("|v: i32| { ev(\"%d.%d.f\", &v); if act(%d) == 0 { Some(v + 1) } else { None } }" % (b, k, fs))], deferred=not recover))
                     items.append(Op("^^>", []))
                 if rich:
                     # (no `->`, `=>`, `..` in these steps: the failure must come from the Option method alone)
